@@ -100,7 +100,7 @@ func relaxQuantifiers(q string) string {
 // candidateModel solves the relaxed query of a failing obligation and returns the values of the program-level constants
 // (variables, call results, values read through pointers, ghost variables).
 func candidateModel(ob *Obligation) string {
-	if ob.fv == nil || ob.Query == "" {
+	if ob.fv == nil || ob.query() == "" {
 		return "no query"
 	}
 	var names []string
